@@ -80,7 +80,7 @@ def run_provider(prop, tier, seed):
     cap = 4000 if T else 500
     for faults in (False, True):
         for parts in configs(mode, tier):
-            lines.append(json.dumps({"mode": mode, "parts": parts, "explore": {"max_paths": cap if not faults else cap // 4, "seed": seed, "faults": faults,
+            lines.append(json.dumps({"mode": mode, "parts": parts, "explore": {"max_paths": cap if not faults else cap // 4, "seed": seed, "salt": len(lines), "faults": faults,
                                                                                 "max_new": 2 if T else 1, "max_len": 40}}))
     try:
         outs = harness_run(binary, "provider", lines, shards=NCPU, timeout=1500)
